@@ -141,7 +141,7 @@ Proof.
       destruct (aget (memo st) k0) as [[v|]|] eqn:Em.
       * cbn [fst]. destruct (aget (files st) k0) as [t|] eqn:Ef; [|exact HI].
         intros k. rewrite gget_gset. destruct (str_eqb_spec k0 k) as [<-|Hne]; [|apply HI].
-        cbn [good]. exists t. rewrite Em, (Hcached v t Em Hns Ef). auto.
+        cbn [good]. exists t. split; [exact Ef|]. rewrite Em. do 2 f_equal. exact (Hcached v t eq_refl Hns eq_refl).
       * destruct (aget (files st) k0) as [t|] eqn:Ef; cbn [fst]; [|exact HI].
         intros k. rewrite gget_gset. destruct (str_eqb_spec k0 k) as [<-|Hne]; cbn [good memo files].
         -- exists t. rewrite aget_aset, str_eqb_refl. auto.
@@ -169,8 +169,125 @@ Proof.
     intros k. pose proof (HI k) as Hk.
     destruct (gget g ko) eqn:Eo; cbn [good] in Hko.
     + (* never hashed: the memo is untouched, the content of the new path changed *)
-      rewrite Hko. apply (good_demote st); cbn [memo files]; auto.
-      * intros Hnk. upd. keys; try congruence.
-        revert Hk. rewrite Eo. cbn [good]. intros Hk.
-        exfalso. clear - Hk Eo Hne Hnk. Fail idtac "unreachable".
-Admitted.
+      rewrite Hko. destruct (str_eqb_spec ko k) as [<-|Hnk].
+      * rewrite gget_demote_other by (intros E; apply Hne; congruence).
+        rewrite Eo. cbn [good memo]. exact Hko.
+      * apply (good_demote st); cbn [memo files]; auto. intros Hnn. upd. keys; congruence.
+    + (* nil *)
+      rewrite Hko. destruct (has_prefix memo_forget_prefix ko);
+        rewrite !gget_gset; keys; cbn [good memo files]; upd; rewrite ?str_eqb_refl; keys; fin;
+        apply (good_ext st); cbn [memo files]; upd; keys; fin.
+    + (* valid: the entry travels with the tree *)
+      destruct Hko as (t0 & Hf0 & Hm0). rewrite Hm0.
+      assert (t0 = t) by congruence. subst t0.
+      destruct (has_prefix memo_forget_prefix ko);
+        rewrite !gget_gset; keys; cbn [good memo files]; upd; rewrite ?str_eqb_refl; keys; fin;
+        apply (good_ext st); cbn [memo files]; upd; keys; fin.
+    + (* no claim *)
+      destruct (aget (memo st) ko) as [h|] eqn:Em;
+        destruct (has_prefix memo_forget_prefix ko);
+        rewrite !gget_gset; keys; cbn [good memo files]; upd; rewrite ?str_eqb_refl; keys; fin;
+        apply (good_ext st); cbn [memo files]; upd; keys; fin.
+Qed.
+
+(* ---- what Hash answers ---- *)
+(* st: the state in which (equivalently: after which) the operation ran; Hash does not touch the files *)
+Definition answer_ok (root : str) (st : mstate) (o : op) (r : obs) : Prop :=
+  match o, r with
+  | OHash p _, ObsVal v _ => exists t, aget (files st) (ensure_relative root p) = Some t /\ v = stream t
+  | OHash p _, ObsErr => aget (files st) (ensure_relative root p) = None
+  | _, _ => True
+  end.
+
+Lemma hash_keeps_files root st p rc : files (fst (step root st (OHash p rc))) = files st.
+Proof.
+  cbn [step]. destruct (if rc then None else aget (memo st) (ensure_relative root p)) as [[v|]|];
+    try reflexivity; destruct (aget (files st) (ensure_relative root p)); reflexivity.
+Qed.
+
+Lemma step_answer root st g o :
+  Inv st g -> allowed root g o = true -> answer_ok root st o (snd (step root st o)).
+Proof.
+  intros HI Hal. destruct o as [p t|p|a b|p rc|a b|a b|p v|a b]; cbn [step];
+    try (cbn [answer_ok snd]; exact I);
+    try (destruct (aget (files st) (ensure_relative root a)); [|exact I]; try destruct (str_eqb _ _); exact I).
+  set (k0 := ensure_relative root p). pose proof (HI k0) as H0.
+  assert (Hfresh : answer_ok root st (OHash p rc)
+            (snd match aget (files st) k0 with
+                 | Some t => (MState (aset (memo st) k0 (Some (Some (stream t)))) (files st), ObsVal (stream t) true)
+                 | None => (st, ObsErr)
+                 end)).
+  { cbn [answer_ok]. fold k0. destruct (aget (files st) k0) as [t|] eqn:Ef; cbn [snd]; eauto. }
+  destruct rc; [exact Hfresh|].
+  cbn [allowed] in Hal. fold k0 in Hal.
+  destruct (aget (memo st) k0) as [[v|]|] eqn:Em; try exact Hfresh.
+  cbn [snd answer_ok]. fold k0.
+  destruct (gget g k0); cbn [good] in H0; try congruence; try discriminate.
+  destruct H0 as (t & Ef & Em'). exists t. split; [exact Ef|congruence].
+Qed.
+
+(* the state and the status map after a whole sequence *)
+Fixpoint run (root : str) (st : mstate) (g : ghost) (ops : list op) : mstate * ghost :=
+  match ops with
+  | [] => (st, g)
+  | o :: r => run root (fst (step root st o)) (g_step root (files st) g o) r
+  end.
+
+Definition entry_ok (root : str) (e : op * obs * bool * mstate) : Prop :=
+  answer_ok root (snd e) (fst (fst (fst e))) (snd (fst (fst e))).
+
+(* ---- the theorem: induction over the operation list, from any state satisfying the invariant ---- *)
+Lemma memo_sound_from root ops : forall st g,
+  Inv st g -> follows root st g ops = true ->
+  Forall (entry_ok root) (exec root st g ops)
+  /\ Inv (fst (run root st g ops)) (snd (run root st g ops)).
+Proof.
+  induction ops as [|o r IH]; intros st g HI Hf.
+  - split; [constructor|exact HI].
+  - unfold follows in Hf. cbn [exec run] in *.
+    destruct (step root st o) as [st' out] eqn:Es. cbn [forallb fst snd] in Hf.
+    apply andb_true_iff in Hf as [Hal Hrest].
+    assert (HI' : Inv st' (g_step root (files st) g o)).
+    { pose proof (step_inv root st g o HI Hal) as H. rewrite Es in H. exact H. }
+    destruct (IH st' _ HI' Hrest) as [Hall Hfin]. cbn [fst]. split; [|exact Hfin].
+    constructor; [|exact Hall].
+    unfold entry_ok. cbn [fst snd].
+    pose proof (step_answer root st g o HI Hal) as Ha. rewrite Es in Ha. cbn [snd] in Ha.
+    destruct o; try exact Ha || (destruct out; exact I).
+    (* Hash: the files after are the files before *)
+    pose proof (hash_keeps_files root st p recalc) as Hk. rewrite Es in Hk. cbn [fst] in Hk.
+    unfold answer_ok in *. rewrite Hk. exact Ha.
+Qed.
+
+Lemma inv_init : Inv mstate0 [].
+Proof. intros k. reflexivity. Qed.
+
+Lemma memo_sound root ops :
+  follows root mstate0 [] ops = true ->
+  Forall (entry_ok root) (exec root mstate0 [] ops)
+  /\ Inv (fst (run root mstate0 [] ops)) (snd (run root mstate0 [] ops)).
+Proof. apply memo_sound_from. exact inv_init. Qed.
+
+(* ---- the protocol hypothesis cannot be dropped: rewriting a path under a valid entry and asking
+        again without recalc returns the hash of the OLD tree (this is what memoisation means) ---- *)
+Definition stale_demo : list op :=
+  [OWrite (s "src/a") (File (s "v1")); OHash (s "src/a") false;
+   OWrite (s "src/a") (File (s "v2")); OHash (s "src/a") false].
+Lemma protocol_needed :
+  follows (s "/r") mstate0 [] stale_demo = false
+  /\ map (fun e => snd (fst (fst e))) (exec (s "/r") mstate0 [] stale_demo)
+     = [ObsNone; ObsVal (s "v1") true; ObsNone; ObsVal (s "v1") false].
+Proof. split; vm_compute; reflexivity. Qed.
+
+(* ---- build.moveOutput twice for the same temporary path (the sequence mutation m3 breaks) is inside
+        the protocol, and the second Hash of the temporary path answers for the NEW content ---- *)
+Definition move_output_twice : list op :=
+  [OWrite (s "plz-out/tmp/t/o") (File (s "one")); OHash (s "plz-out/tmp/t/o") false;
+   OMoveOutput (s "plz-out/tmp/t/o") (s "plz-out/gen/p/o");
+   OWrite (s "plz-out/tmp/t/o") (File (s "two")); OHash (s "/r/plz-out/tmp/t/o") false;
+   OHash (s "plz-out/gen/p/o") false].
+Lemma move_output_twice_ok :
+  follows (s "/r") mstate0 [] move_output_twice = true
+  /\ map (fun e => snd (fst (fst e))) (exec (s "/r") mstate0 [] move_output_twice)
+     = [ObsNone; ObsVal (s "one") true; ObsNone; ObsNone; ObsVal (s "two") true; ObsVal (s "one") false].
+Proof. split; vm_compute; reflexivity. Qed.
